@@ -1,5 +1,6 @@
 mod common;
 mod p_batched;
+mod p_bpetrain;
 mod p_edit;
 mod p_multigen;
 mod p_pipe;
@@ -21,6 +22,7 @@ fn component(name: &str) -> (ExecFn, GenFn) {
     match name {
         "edit" => (p_edit::exec, p_edit::gen),
         "pipe" => (p_pipe::exec, p_pipe::gen),
+        "bpetrain" => (p_bpetrain::exec, p_bpetrain::gen),
         "tok" => (p_tok::exec, p_tok::gen),
         "batched" => (p_batched::exec, p_batched::gen),
         "multigen" => (p_multigen::exec, p_multigen::gen),
